@@ -239,12 +239,12 @@ def plain(tree):
 def same_tree(got, want, mode):
     """files on disk vs files computed in memory.  In rename mode, WHICH of two colliding files gets the numbered name
     depends on the order in which the linter's workers return their violations (not fixed, neither in the model: the
-    correspondence is existential over that order): there the trees are compared up to a `_<n>` suffix of the name"""
+    correspondence is existential over that order): there the trees are compared up to a `_<n>` suffix of the name (`_<n>_test` for test files)"""
     if got == want:
         return True
     if mode != 'rename':
         return False
-    key = lambda t: sorted((re.sub(r'_\d+(\.rego)$', r'\1', p_), b) for p_, b in t.items())
+    key = lambda t: sorted((re.sub(r'_\d+((?:_test)?\.rego)$', r'\1', p_), b) for p_, b in t.items())
     return key(got) == key(want)
 
 
